@@ -52,7 +52,7 @@ reg("c15_fx_generic_dispatch_other_instantiation", "g_generic", ["C15"], "thorou
 reg("c15_fx_generic_shape", "g_generic", ["C15", "C01"], "quick", "wire shape of a generic message equals the non-generic case", fixture=GE)
 reg("c15_fx_generic_phantom_not_on_wire", "g_generic", ["C15", "C01"], "quick", "the helper variant carrying the type parameters is not on the wire: __phantom / _phantom / phantom / _Phantom are rejected by the generic exec, sudo and query message types", fixture=GE)
 treg("fx_generic.T.accepted", "g_generic", ["C15"], GE)
-for t in ["exec_msg_params_exact", "sudo_msg_params_exact", "query_msg_params_exact", "instantiate_msg_no_params", "messages_encodable_with_only_used_params", "assoc_iface_msg_params"]:
+for t in ["exec_msg_params_exact", "sudo_msg_params_exact", "query_msg_params_exact", "instantiate_msg_params_exact", "messages_encodable_with_only_used_params", "assoc_iface_msg_params"]:
     treg("fx_generic.T." + t, "g_generic", ["C15"], GE)
 
 # ---- fx_attr (hand/attr.rs)
